@@ -3,7 +3,11 @@ import re, json, os, random
 import xml.etree.ElementTree as ET
 import shellrun, semrun, gen, impl
 
-OBLIGATIONS = ['Yalafi.C14_mapMatch_word', 'Yalafi.C14_assemble_shift', 'Yalafi.C14_assemble_lengths', 'Yalafi.C14_sorted']
+OBLIGATIONS = ['Yalafi.C14_mapMatch_word', 'Yalafi.C14_assemble_shift', 'Yalafi.C14_assemble_lengths', 'Yalafi.C14_sorted',
+               # position arithmetic of the reports (Model/Reports.lean, correspondence: corr_reports.py)
+               'Yalafi.C14_linecol_roundtrip', 'Yalafi.C14_formats_agree', 'Yalafi.C14_jsonPriv_nat', 'Yalafi.C14_html_agrees',
+               'Yalafi.C14_html_end_agrees', 'Yalafi.C14_xmlb_bytes', 'Yalafi.C14_xmlb_bytes_end', 'Yalafi.C14_translate_numbers',
+               'Yalafi.C14_translate_numbers_none']
 
 ONLY = {'c_group', 'c_unknown', 'c_vanish', 'c_ref', 'c_inline_math', 'c_cite', 'c_footnote', 'c_itemize', 'c_env_unknown',
         'c_foreign', 'c_special', 'c_heading'}
@@ -203,6 +207,9 @@ def leaf(ctx):
     import corr_shell
     corr_shell.map_match(ctx, ctx.scale(1500, 30000))
     corr_shell.assemble_sort(ctx, ctx.scale(300, 5000))
+    if ctx.model_ok:
+        import corr_reports
+        corr_reports.reports_corr(ctx, ctx.scale(6000, 60000))
 
 def judge_witness(w):
     c = dict(w)
